@@ -82,7 +82,8 @@ AnalyticOK(e) ==
            [] e.fn = "rank"         -> got.i = RankAt(e.rows, ord, p, e.keys)
            [] e.fn = "dense_rank"   -> got.i = DenseRankAt(e.rows, ord, p, e.keys)
            [] e.fn = "cume_dist"    -> got.num * n = CumeNum(e.rows, ord, p, e.keys) * got.den
-           [] e.fn = "percent_rank" -> IF n = 1 THEN got.num = 0 ELSE got.num * (n - 1) = (RankAt(e.rows, ord, p, e.keys) - 1) * got.den
+           \* (a partition of one row: (rank - 1) / (rows - 1) is 0 / 0; the manual does not settle it - csvq answers 1, the SQL standard 0)
+           [] e.fn = "percent_rank" -> IF n = 1 THEN TRUE ELSE got.num * (n - 1) = (RankAt(e.rows, ord, p, e.keys) - 1) * got.den
            [] e.fn = "ntile"        -> got.i = NtileAt(n, e.arg, p)
            [] e.fn = "lag" /\ ~e.ign  -> got.t = (IF p - e.arg >= 1 THEN TextOf(e.rows[ord[p - e.arg]][e.col]) ELSE "NULL")
            [] e.fn = "lead" /\ ~e.ign -> got.t = (IF p + e.arg <= n THEN TextOf(e.rows[ord[p + e.arg]][e.col]) ELSE "NULL")
@@ -96,6 +97,8 @@ AnalyticOK(e) ==
            [] e.fn = "listagg"      -> LET cs == SelectSeq([q \in 1..n |-> e.rows[ord[q]][e.col]], LAMBDA c : ~c.n) IN
                                        /\ got.t = (IF cs = <<>> THEN "NULL" ELSE JoinText(cs, "a"))
                                        /\ got.t2 = (IF cs = <<>> THEN "NULL" ELSE JoinText(cs, "A"))
+           \* a user-defined aggregate tagcount(v, p) OVER (PARTITION BY p) = the row's own p, ':' and the number of rows of the partition
+           [] e.fn = "useragg"      -> LET c == e.rows[ord[p]][2] IN got.t = (IF c.n THEN "NULL" ELSE c.t \o ":" \o ToString(n))
            [] e.fn \in {"first_value", "last_value", "nth_value", "count", "sum", "min", "max"} ->
                 LET all == FrameCells(e.rows, ord, p, e.lo, e.hi, e.col)
                     \* IGNORE NULLS: the function sees the frame without its NULL values
